@@ -203,6 +203,16 @@ func vfGenFailCmd(t *rapid.T, m *vfModel) vfCmd {
 				spec = m.Svcs[svc].Spec
 			}
 			c = vfCmd{Op: "deploy", Svc: svc, Spec: spec, Targets: []string{vfFailPool[0]}}
+			if kind == "bad-cert" {
+				// the CLI only accepts TLS options with a host and on a service that includes the root path
+				c.Spec = vfSvcSpec{Name: svc, Hosts: []string{"cert.test"}}
+				if s := m.Svcs[svc]; s != nil && len(s.Spec.Hosts) > 0 && vfContains(s.Spec.normPrefixes(), "/") {
+					c.Spec = s.Spec
+				}
+				if vfConflict(m.specs(), c.Spec) {
+					continue
+				}
+			}
 			switch kind {
 			case "bad-target":
 				c.Targets = append(c.Targets, rapid.SampledFrom(vfBadTargets).Draw(t, "bad"))
